@@ -26,11 +26,23 @@ class _FakeRe:
         return s
 
     @staticmethod
-    def findall(pat, text):
-        # pat = "\\b" + name + "\\b" ; text = "expr<j>"
-        i = int(pat[3:-2])
+    def _mentions(pat, text):
+        # pat = "\\b" + name + "\\b" (or a variant of it) ; text = "expr<j>"
+        i = int("".join(ch for ch in str(pat) if ch.isdigit()))
         j = int(text[4:])
-        return ["x"] if _FakeRe.dep[j][i] else []
+        return _FakeRe.dep[j][i]
+
+    @staticmethod
+    def findall(pat, text, *a):
+        return ["x"] if _FakeRe._mentions(pat, text) else []
+
+    @staticmethod
+    def search(pat, text, *a):
+        return "x" if _FakeRe._mentions(pat, text) else None
+
+    @staticmethod
+    def finditer(pat, text, *a):
+        return iter(["x"] if _FakeRe._mentions(pat, text) else [])
 
 
 def _has_cycle(dep, n):
